@@ -90,11 +90,11 @@ def reject (s : Status) : Out := { status := s }
 
 /-- the value the harness (and the witnesses) put into a payload cell named `k` -/
 def payloadVal (k : Name) : Val :=
-  if k = kUMeas then .s (str "evil_m") else
-  if k = kMeas then .s (str "evil_m2") else
-  if k = kM then .s (str "evil_m3") else
-  if k = kUDb then .s (str "evil_db") else
-  if k = kDb then .s (str "evil_db2") else .n
+  if k = kUMeas then .s [101, 118, 105, 108, 95, 109] else            -- "evil_m"
+  if k = kMeas then .s [101, 118, 105, 108, 95, 109, 50] else         -- "evil_m2"
+  if k = kM then .s [101, 118, 105, 108, 95, 109, 51] else            -- "evil_m3"
+  if k = kUDb then .s [101, 118, 105, 108, 95, 100, 98] else          -- "evil_db"
+  if k = kDb then .s [101, 118, 105, 108, 95, 100, 98, 50] else .n    -- "evil_db2"
 
 /-- columnarToWALRecords / typedBatchToWALRecords for one row: `_database`, `_measurement` first, then every
 column is stored under its own name (a column called `_measurement` overwrites the routing entry). -/
